@@ -23,6 +23,10 @@ import vlib
 from vlib import Inconclusive
 
 MAXBLOCKS = 60
+WORKERS = int(os.environ.get("VERIF_TLC_WORKERS", min(vlib.NCPU, 8)))
+# VERIF_CAP=<n>: smoke-run of a tier with the generator bounds lowered by one node, samples capped at n
+# and a small corpus (to exercise the thorough path without paying for it)
+CAP = int(os.environ.get("VERIF_CAP", "0"))
 
 # ---------------------------------------------------------------------------------------------
 # realisation: abstract graph -> Go function
@@ -125,7 +129,7 @@ def validate(ctx, fns, what, workers=None, timeout=3000, shard=20000):
     for s0 in range(0, len(fns), shard):
         part = fns[s0:s0 + shard]
         doc = json.dumps({"fns": part})
-        r = vlib.run_tlc(ctx, "DomObs", "DomObs.cfg", workers=workers or min(vlib.NCPU, 12), timeout=timeout,
+        r = vlib.run_tlc(ctx, "DomObs", "DomObs.cfg", workers=workers or WORKERS, timeout=timeout,
                          extra_files={"dom_obs.json": doc}, extra_args=["-continue"])
         wall += r.wall
         if r.distinct < len(part) + 1:
@@ -269,7 +273,13 @@ def testdata_dirs():
 
 
 def gen_cases(ctx, cfg, need_cases=True):
-    r = vlib.run_tlc(ctx, "DomGen", cfg, workers=min(vlib.NCPU, 8), timeout=3000)
+    extra = None
+    if CAP:
+        # capped smoke run: same config with the node bound lowered by one
+        txt = open(os.path.join(vlib.SPECS, cfg)).read()
+        txt = re.sub(r"MaxNodes = (\d+)", lambda m: "MaxNodes = %d" % max(2, int(m.group(1)) - 1), txt)
+        extra = {cfg: txt}
+    r = vlib.run_tlc(ctx, "DomGen", cfg, workers=WORKERS, timeout=6000, extra_files=extra)
     vlib.tlc_require_ok(r, "DomGen/" + cfg)
     if need_cases and not r.cases:
         raise Inconclusive("DomGen/%s emitted no graphs" % cfg)
@@ -325,6 +335,8 @@ def run(ctx):
         small = [c for c in r5.cases if c["n"] - (1 if c["recover"] else 0) <= 4]
         five = [c for c in r5.cases if c["n"] - (1 if c["recover"] else 0) == 5]
         chosen = small + rs.cases + vlib.sample(ctx, five, 30000) + vlib.sample(ctx, rs4.cases, 10000)
+        if CAP:
+            chosen = vlib.sample(ctx, chosen, CAP)
         exhaustive_what = ("all %d rooted ordered digraphs with <= 4 nodes (out-degree <= 2, with/without recover) and all %d graphs with <= 3 nodes and one "
                            "switch of degree 3-4 realised and validated; seeded samples of the %d 5-node graphs and the %d 4-node one-switch graphs"
                            % (len(small), len(rs.cases), len(five), len(rs4.cases)))
@@ -356,6 +368,8 @@ def run(ctx):
     ctx.note("phase export-generated: %.0fs" % (__import__("time").time() - ctx.t0))
     # 3. corpora: repository packages and testdata packages
     pats = ["./go/...", "./analysis/...", "./pattern/...", "./unused/..."] if ctx.quick else ["./..."]
+    if CAP:
+        pats = ["./go/ir/...", "./analysis/dfa/..."]
     pargs = ["-dedup", "-dir", vlib.REPO]
     if not ctx.quick:
         pargs += ["-both", "-tests"]
@@ -367,11 +381,11 @@ def run(ctx):
         raise Inconclusive("building the repository's packages failed: %s" % phard[:3])
     if pdoc["errors"]:
         ctx.note("go/ir crashed while lifting the repository's packages; answers taken from the naive-form build")
-    if pdoc["total"] < 500:
+    if pdoc["total"] < (500 if not CAP else 50):
         raise Inconclusive("corpus export found only %d functions" % pdoc["total"])
     dirs = testdata_dirs()
-    if ctx.quick:
-        dirs = vlib.sample(ctx, dirs, 100)
+    if ctx.quick or CAP:
+        dirs = vlib.sample(ctx, dirs, 100 if not CAP else 20)
     dl = os.path.join(ctx.tmp("exp"), "dirs.txt")
     with open(dl, "w") as f:
         f.write("\n".join(dirs) + "\n")
